@@ -352,10 +352,16 @@ def plan(tier: str, seed: int, scale: float = 1.0) -> List[Any]:
     shards = n * (1 if tier == 'quick' else 4)
     items: List[Any] = [{'kind': 'hyp', 'n': max(1, total // shards), 'seed': seed * 1000 + i} for i in range(shards)]
     items.append({'kind': 'fixed'})
+    if tier == 'thorough':
+        for i in range(n):
+            items.append({'kind': 'atheris', 'seconds': int(300 * scale), 'seed': seed * 1000 + 300 + i})
     return items
 
 
 def work(item: Dict[str, Any]) -> Acc:
+    if item['kind'] == 'atheris':
+        from ..core import run_fuzz_item
+        return run_fuzz_item(ID, 'c01', item['seconds'], item['seed'])
     acc = Acc()
     buckets: Dict[str, Dict[str, Any]] = {}
 
